@@ -743,7 +743,7 @@ fn handwritten() -> Vec<(&'static str, String)> {
     let v: Vec<(&str, &str)> = vec![
         ("hw/f18", "%start S\n%%\nS: \"😀\" Item /* 😀 */ Item;\nItem: \"a\";\n"),
         ("hw/bmp", "%start S\n%%\nS: \"Ü€\" Item /* ÄÖ */ Item;\nItem: \"ä\";\n"),
-        ("hw/states", "%start S\n%scanner Esc {\n    %auto_newline_off\n    %on A %enter INITIAL\n    %skip B\n}\n%scanner Str { %on B %push Esc }\n%on A, B %enter Esc\n%%\nS: A <Esc, Str>B Esc;\nA: \"a\";\nB: <Esc>\"b\";\nEsc: <INITIAL, Esc>\"e\";\n"),
+        ("hw/states", "%start S\n%on A, B %enter Esc\n%scanner Esc {\n    %auto_newline_off\n    %on A %enter INITIAL\n    %skip B\n}\n%scanner Str { %on B %push Esc }\n%%\nS: A <Esc, Str>\"x\" B Esc;\nA: \"a\";\nB: <Esc>\"b\";\nEsc: <INITIAL, Esc>\"e\";\n"),
         ("hw/types", "%start S\n%user_type N = crate::N\n%nt_type N = crate::S\n%nt_type B = crate::B\n%t_type crate::T\n%%\nS: \"a\": N | B: crate::N N@B | N;\nB: \"b\"^;\nN: \"n\" B@N;\n"),
         ("hw/crlf", "%start S\r\n%%\r\nS: A A;\r\nA: \"a\";\r\n"),
         ("hw/cr", "%start S\r%%\rS: A A;\rA: \"a\";\r"),
@@ -809,8 +809,12 @@ pub fn generate(seed: u64, thorough: bool) -> Vec<String> {
     }
     let per_text = if thorough { usize::MAX } else { 8 };
     let mut out = vec![];
-    for (_, t) in &texts {
-        let Ok(doc) = Doc::new(t) else { continue };
+    for (name, t) in &texts {
+        let Ok(doc) = Doc::new(t) else {
+            // not a text the server's parser accepts: outside the property's quantifier
+            eprintln!("c28 gen: skipped (invalid) {name}");
+            continue;
+        };
         let syms: Vec<(char, String)> = doc.symbols().keys().cloned().collect();
         let mut chosen: Vec<usize> = (0..syms.len()).collect();
         if chosen.len() > per_text {
